@@ -28,6 +28,7 @@ func init() {
 		Explanation: "RELOAD-INPLACE: from the symbolic handler summaries — GLOBALFUNC: when the global already holds a function the handler stores *through* the existing *funcT (captured function values see the new body) and does not call globals.Write, otherwise it writes the new value; GLOBALZERO assigns the zero value only under IsNil of the current value (variables declared without initialiser keep their state); GLOBALSTRUCT: an existing type is merged with syncFields and never overwritten; addMethod overwrites an existing method's funcT in place and inserts otherwise; syncFields adds every field of the new type object through addField. GLOBALSET (variables with an initialiser) always assigns. Not decided: histories of loads; instances created before a field was added.",
 		Quick: []ruleDef{
 			{"RELOAD-INPLACE", 8, ruleReloadInPlace},
+			{"RELOAD-TYPESLOT", 1, ruleReloadTypeSlot},
 		},
 	})
 	register(&propDef{
@@ -1474,4 +1475,59 @@ func rulePosNode(c *Ctx, r *R) {
 	if n == 0 {
 		r.undecided("call position", "-", "no Led handler creates a call node with symAtPos")
 	}
+}
+
+// RELOAD-TYPESLOT: named non-struct types are written into their global slot while
+// compiling and read back from it by typeFromToken while compiling; struct and interface
+// types are stored only when their declaration runs. A reload that turns `type T int` into
+// `type T struct{..}` must therefore not leave the old compile-time value in the slot: the
+// struct/interface branch clears a slot that holds a type value.
+func ruleReloadTypeSlot(c *Ctx, r *R) {
+	cs, err := c.compileSwitch()
+	if err != nil {
+		r.undecided("compile", "-", err.Error())
+		return
+	}
+	sc := cs.ByLabel["type"]
+	if sc == nil {
+		r.undecided("type", "-", "no compile-case")
+		return
+	}
+	nWrite, clears := 0, false
+	ast.Inspect(sc.Clause, func(n ast.Node) bool {
+		call, ok := n.(*ast.CallExpr)
+		if !ok || c.CalleeName(call) != "lookup.Write" || len(call.Args) != 2 {
+			return true
+		}
+		nWrite++
+		// a write of the zero Value under a test of the slot's current type, on the struct/interface branch
+		cl, ok := unparen(call.Args[1]).(*ast.CompositeLit)
+		if !ok || len(cl.Elts) != 0 {
+			return true
+		}
+		testsType, structBranch := false, false
+		for p := c.Parent(call); p != nil && p != ast.Node(sc.Clause); p = c.Parent(p) {
+			ifs, ok := p.(*ast.IfStmt)
+			if !ok {
+				continue
+			}
+			src := nosp(c.Src(ifs.Cond))
+			if strings.Contains(src, "typeType") && strings.Contains(src, ".Read(") {
+				testsType = true
+			}
+			if strings.Contains(src, `"struct"`) && strings.Contains(src, `"interface"`) {
+				structBranch = true
+			}
+		}
+		if testsType && structBranch {
+			clears = true
+		}
+		return true
+	})
+	if nWrite == 0 {
+		r.ok("type slot", "no compile-time write of type values: nothing to go stale")
+		return
+	}
+	r.check(clears, "type slot cleared", c.Pos(sc.Clause), "compiling a struct or interface declaration clears a compile-time type value left in its slot",
+		"compile(\"type\") writes non-struct types into their global slot at compile time but never clears it when the name becomes a struct or interface: after `type rec int` a reload with `type rec struct{a, b int}` fails to compile (`untyped data`) for ever, because typeFromToken still reads the stale int")
 }
